@@ -57,6 +57,10 @@ where
             T::from_buffer(buf)
         } else if let Entry::Occupied(mut entry) = self.queue.entry(id) {
             let queue = entry.get_mut();
+            if queue.fragments.len() != total as usize {
+                // inconsistent with the fragments already queued under this id
+                return None;
+            }
             if queue.add_fragment(seq, buf) {
                 let buf = queue.assemble();
                 // tracing::trace!("reassembled {} bytes", buf.len());
